@@ -33,6 +33,11 @@ type KnownFinding struct {
 	Witness    map[string]interface{} `json:"witness"`
 	Text       string                 `json:"text"`
 	Commit     string                 `json:"commit,omitempty"`
+	// Param: name of the harness parameter that makes the harness ASSUME the finding's
+	// region away (the rest of the space is still decided); WitnessSpec: the harness spec the
+	// witness is replayed with (natively) to see whether the finding is still present.
+	Param       string       `json:"param,omitempty"`
+	WitnessSpec *HarnessSpec `json:"witness_spec,omitempty"`
 }
 
 type RegionAtom struct {
@@ -143,6 +148,23 @@ func runCheck(verifDir, prop, tier string, seed int) int {
 	specs := def.Quick
 	if tier == "thorough" && len(def.Thorough) > 0 {
 		specs = def.Thorough
+	}
+	// known findings: exclude their regions by harness parameter, and replay their witnesses
+	findings0 := loadFindings(verifDir)
+	for _, f := range findings0 {
+		if f.Kind != "finding" || f.Property != prop || f.Param == "" {
+			continue
+		}
+		for i := range specs {
+			if strings.HasPrefix(specs[i].Name, f.Harness) {
+				np := map[string]int{}
+				for k, v := range specs[i].Params {
+					np[k] = v
+				}
+				np[f.Param] = 1
+				specs[i].Params = np
+			}
+		}
 	}
 	// make generated overlay files once, before the parallel runs
 	if ov, err := overlayFiles(verifDir); err == nil {
@@ -285,7 +307,18 @@ func runCheck(verifDir, prop, tier string, seed int) int {
 		perHarness = append(perHarness, map[string]interface{}{"harness": r.Spec.Name, "func": r.Spec.Func, "obligations": len(r.Obligations), "violations": nviol,
 			"states": r.States, "instrs": r.Instrs, "queries": r.Queries, "solver_s": r.SolverS, "wall_s": r.WallS, "covers": len(r.Covers), "cross_check": r.Cross, "extra": r.Extra})
 	}
-	// findings that were listed but whose witness no longer fails are simply not printed.
+	// a listed finding is announced only while its witness still fails natively
+	for _, f := range findings0 {
+		if f.Kind != "finding" || f.Property != prop || f.WitnessSpec == nil || knownPrinted[f.ID] {
+			continue
+		}
+		rr, _, err := nativeReplay(verifDir, f.WitnessSpec.Pkg, []replayCase{{ID: "kf", Harness: f.WitnessSpec.Name, Vars: f.Witness, Params: f.WitnessSpec.Params}})
+		if err == nil && rr["kf"] != nil && (contains(rr["kf"].Failed, f.Obligation) || (f.Obligation == "" && len(rr["kf"].Failed) > 0) || rr["kf"].Panicked != "") {
+			fmt.Printf("KNOWN-FINDING: property=%s %s\n", prop, f.Text)
+			knownPrinted[f.ID] = true
+			replays++
+		}
+	}
 	for _, m := range inconcl {
 		fmt.Printf("INCONCLUSIVE property=%s reason=%s\n", prop, m)
 	}
